@@ -265,6 +265,11 @@ func (r *run) wireWanted(sc *scenario) bool {
 		return false
 	case "":
 		return true
+	}
+	if r.c.Replay != "" {
+		return true // a replay always goes over the wire too
+	}
+	switch sc.Mut.Kind {
 	case "env-byte":
 		r.wireTick++
 		return r.wireTick%r.c.Pick(60, 10) == 0
